@@ -63,7 +63,7 @@ def hitClass (li si : Nat) (ans : String) : String :=
       (if i == li && j == si then "own" else if i < li || (i == li && j < si) then "earlier" else "later") ++
       (if q == "1" then "" else ":q" ++ q)
     | _, _ => "?"
-  | _ => ans
+  | _ => if ans == "none" then "none" else "other"
 
 /-- `C13.tcp <0 SYN | 1 SYN+ACK> <label idx> <sig idx> <0 v4 | 1 v6> <IP packet>` — traffic
 synthesised for bundled entry `(label idx, sig idx)` of the request / response section, run through
